@@ -33,6 +33,7 @@ type gaCase struct {
 	Atoms       []genAtom   `json:"atoms"`
 	Vals        [][][]m.Lit `json:"vals"`  // node x atom -> values of ex.p<atom>
 	Vals2       [][][]m.Lit `json:"vals2"` // node x atom -> values of ex.q<atom> (comparisons)
+	NumStyle    int         `json:"num_style,omitempty"` // YAML spelling of the numbers in the profile
 	ProfileText string      `json:"profile_text"`
 	DataText    string      `json:"data_text"`
 }
@@ -545,6 +546,7 @@ func genC01Atoms(t *rapid.T) gaCase {
 			c.Vals2[n] = append(c.Vals2[n], v2[n])
 		}
 	}
+	c.NumStyle = rapid.SampledFrom([]int{0, 0, 0, 1, 2, 3, 4, 5, 6, 7}).Draw(t, "numStyle")
 	c.ProfileText, c.DataText = c.render()
 	return c
 }
@@ -611,7 +613,7 @@ func (c gaCase) render() (string, string) {
 			}
 		}
 	}
-	text := doc.Print(m.YOpts{})
+	text := doc.Print(m.YOpts{NumStyle: c.NumStyle})
 	if err := m.YAMLMatches(text, doc); err != nil {
 		return "", "" // generator self-check: decided as a discard
 	}
@@ -664,6 +666,9 @@ func decideC01Atoms(c gaCase) ev.Verdict {
 			}
 		}
 		labels = append(labels, "gen-atom:"+a.Kind)
+		if c.NumStyle != 0 && (a.Dec != "" || a.List == nil && a.Str == "" && !isCmpKind(a.Kind)) {
+			labels = append(labels, fmt.Sprintf("number-spelling-style:%d", c.NumStyle))
+		}
 		if a.Dec != "" {
 			labels = append(labels, fmt.Sprintf("decimal-bound-with-%d-decimals", len(a.Dec)-strings.Index(a.Dec, ".")-1))
 		}
